@@ -29,6 +29,8 @@ def rewrite_lines(
     """Replace occurances of patterns in old_lines with new_vinfo."""
     found_patterns: typ.Set[Pattern] = set()
 
+    replacements_by_lineno: typ.Dict[int, typ.List[typ.Tuple[typ.Tuple[int, int], str]]] = {}
+
     new_lines = old_lines[:]
     for match in parse.iter_matches(old_lines, patterns):
         found_patterns.add(match.pattern)
@@ -36,9 +38,15 @@ def rewrite_lines(
             match.pattern.version_pattern, match.pattern.raw_pattern
         )
         replacement = v2version.format_version(new_vinfo, normalized_pattern)
-        span_l, span_r = match.span
-        new_line = match.line[:span_l] + replacement + match.line[span_r:]
-        new_lines[match.lineno] = new_line
+        replacements_by_lineno.setdefault(match.lineno, []).append((match.span, replacement))
+
+    for lineno, replacements in replacements_by_lineno.items():
+        # There can be matches of multiple patterns on the same line.
+        # Apply from right to left, so that the spans remain valid.
+        new_line = old_lines[lineno]
+        for (span_l, span_r), replacement in sorted(replacements, reverse=True):
+            new_line = new_line[:span_l] + replacement + new_line[span_r:]
+        new_lines[lineno] = new_line
 
     if set(patterns) == found_patterns:
         return new_lines
